@@ -152,7 +152,13 @@ def source_strings(draw):
     form = draw(st.integers(0, 9))
     if form >= 7:
         # shapes that the language-specific sanitizers of sanitize_date rewrite (Croatian 'd. m. yyyy. u', Russian 'г.')
-        k = draw(st.integers(0, 3))
+        k = draw(st.integers(0, 6))
+        if k == 4:
+            return "%d мая %d г." % (d, y), "ru", "generated"      # ends in the year marker the sanitizer blanks out
+        if k == 5:
+            return "%d. %d. %d." % (d, m, y), draw(st.sampled_from(["hr", "sl", "de", "hu"])), "generated"  # ends in a full stop
+        if k == 6:
+            return "%d января %d г. »" % (d, y), "ru", "generated"  # ends in a skipped character
         if k == 0:
             return "%02d. %02d. %04d. u %02d:%02d" % (d, m, y, H, M), "hr", "generated"
         if k == 1:
